@@ -77,6 +77,7 @@ def run(F, R, ctx):
     inline_count_rule(F, R)
     constant_truth_rule(F, R)
     alias_substitution_rule(F, R)
+    cond_arrow_rule(F, R)
 
 
 # the walkers whose result decides how an assigned variable is compiled: they must see every sub-expression
@@ -1009,3 +1010,67 @@ def alias_substitution_rule(F, R):
                    "%s constructs RemoveLetsBoundToOtherLocalVars (line %s) without handing it a collection that comes from a "
                    "visitor of the expression's set! forms" % (fn.short(), e[3]), fn.loc(e[3]), sample=True)
     R.floor("C01.j", "constructions of the let-alias pass", n, 1)
+
+
+def cond_arrow_rule(F, R):
+    from . import sexp
+    from . import facts as factsmod
+    R.rule("C01.y", "`cond` evaluates the receiver of a `=>` clause only when the test was true, and handles `=>` in every position "
+                    "(syntax-tree rule over the library source, stdlib.scm): in each rule of the cond macro whose first clause is "
+                    "`[test => receiver …]`, the receiver's pattern variable occurs in the template only inside the consequent of "
+                    "an `if` / the body of a `when` — never in a binding list, which is evaluated before the test is looked at — "
+                    "and a rule for `[test => receiver …]` as the ONLY clause comes before the general single-clause rule (which "
+                    "would otherwise read `=>` as an expression). nc: `(cond [#f => (error …)] [else 1])` raised")
+    forms = sexp.load(factsmod.REPO, STDLIB_SCM)
+    cd = [f for f in forms if sexp.is_form(f, "define-syntax") and len(f) > 2 and str(f[1]) == "cond"]
+    if not cd or not sexp.is_form(cd[0][2], "syntax-rules"):
+        raise CheckError("anchor lost: (define-syntax cond (syntax-rules …)) in %s" % STDLIB_SCM)
+    rules_ = [r for r in cd[0][2][2:] if isinstance(r, list) and len(r) == 2 and isinstance(r[0], list)]
+    where = "%s:%s" % (STDLIB_SCM, getattr(cd[0], "line", 0))
+    n = 0
+    only_arrow = None
+    single_general = None
+    for idx, (pat, tmpl) in enumerate(rules_):
+        clauses = [c for c in pat[1:] if isinstance(c, list)]
+        if not clauses:
+            continue
+        first = clauses[0]
+        rest_ = pat[2:]
+        is_arrow = len(first) >= 3 and str(first[1]) == "=>" and str(first[0]) != "else"
+        if len(pat) == 2 and len(first) >= 2 and str(first[0]) != "else":
+            if is_arrow and only_arrow is None:
+                only_arrow = idx
+            if not is_arrow and single_general is None and len(first) >= 2 and str(first[-1]) == "...":
+                single_general = idx
+        if not is_arrow:
+            continue
+        n += 1
+        recv = str(first[2])
+
+        def occurrences(x, ctx):
+            out = []
+            if isinstance(x, list):
+                head = str(x[0]) if x and not isinstance(x[0], list) else None
+                for k, y in enumerate(x):
+                    c2 = ctx
+                    if head in ("let", "let*", "letrec") and k == 1:
+                        c2 = ctx + ["binding"]
+                    elif head == "if" and k == 2:
+                        c2 = ctx + ["then"]
+                    elif head in ("when",) and k >= 2:
+                        c2 = ctx + ["then"]
+                    out += occurrences(y, c2)
+            elif str(x) == recv:
+                out.append(ctx)
+            return out
+        occ = occurrences(tmpl, [])
+        # every occurrence lies under a consequent, and no binding list sits between the root and that consequent
+        ok = bool(occ) and all("then" in c and "binding" not in c[:c.index("then")] for c in occ)
+        R.inst("C01.y", "cond rule %d / the receiver of => is evaluated only after the test was found true" % idx, ok,
+               "rule %d of the cond macro evaluates the receiver expression of a `=>` clause in a binding list (before the test is "
+               "examined): (cond [#f => (error …)] [else 1]) raises" % idx, where, sample=True)
+    R.inst("C01.y", "cond / `[test => receiver]` as the only clause has its own rule before the general one",
+           only_arrow is not None and (single_general is None or only_arrow < single_general),
+           "the cond macro has no rule for a `=>` clause that is the only (last) clause ahead of `[(cond [e1 e2 ...]) (when e1 e2 "
+           "...)]`: (cond [(assv k al) => cdr]) expands to (when … => cdr) and `=>` is a free identifier", where, sample=True)
+    R.floor("C01.y", "cond rules with a => clause", n, 2)
